@@ -396,7 +396,12 @@ fn main() {
     while deleted.id == donor.id || deleted.id == renamed.id {
         deleted = &tb.file[t.below(n)];
     }
-    let new_name = format!("TLS_VERIF{:04X}_{}", t.u16(), donor.name.trim_start_matches("TLS_"));
+    // (longer than every name in the list, so that nothing sized for today's longest name is long enough)
+    let longest = tb.file.iter().map(|r| r.name.len()).max().unwrap_or(0);
+    let mut new_name = format!("TLS_VERIF{:04X}_{}", t.u16(), donor.name.trim_start_matches("TLS_"));
+    while new_name.len() <= longest {
+        new_name.push_str("_X");
+    }
     let ren_name = format!("{}_V{}", renamed.name, t.below(100));
     let list_path = dst.join("scripts/tls-ciphersuites.txt");
     let original = std::fs::read_to_string(src.join("scripts/tls-ciphersuites.txt")).map_err(io)?;
@@ -427,10 +432,36 @@ fn main() {
     cols[1] = new_name.clone();
     edited.push_str(&cols.join(":"));
     edited.push('\n');
-    let args: Vec<String> = vec![
+    // two more rows in the other shapes the generator accepts (it reads the first ten columns): the ten registry columns alone, and a
+    // row whose reference column is a URL (the colons in it make more than fifteen fields)
+    let mut extra: Vec<(u16, String)> = Vec::new();
+    for (k, shape) in ["ten-columns", "url-reference"].iter().enumerate() {
+        let mut id = new_id;
+        loop {
+            id = 0xff00 + ((id + 1 + k as u16) & 0xff);
+            if id != 0xffff && id != new_id && !tb.file.iter().any(|r| r.id == id) && !extra.iter().any(|e| e.0 == id) {
+                break;
+            }
+        }
+        let name = format!("TLS_VERIF_{}_{}", shape.replace('-', "_").to_uppercase(), donor.name.trim_start_matches("TLS_"));
+        let mut c: Vec<String> = cols.iter().take(10).cloned().collect();
+        c[0] = format!("{:04x}", id);
+        c[1] = name.clone();
+        if *shape == "url-reference" {
+            c.extend(["https://datatracker.ietf.org/doc/draft-example/".to_string(), "0".to_string(), "0303".to_string(), "ffff".to_string()]);
+        }
+        edited.push_str(&c.join(":"));
+        edited.push('\n');
+        extra.push((id, name));
+    }
+    let mut args: Vec<String> = vec![
         format!("id:{:04x}", new_id), format!("id:{:04x}", donor.id), format!("id:{:04x}", renamed.id), format!("id:{:04x}", deleted.id),
         format!("name:{}", new_name), format!("name:{}", ren_name), format!("name:{}", renamed.name), format!("name:{}", deleted.name),
     ];
+    for (id, name) in &extra {
+        args.push(format!("id:{:04x}", id));
+        args.push(format!("name:{}", name));
+    }
     let run_probe = || -> Result<Vec<String>, Fail> {
         let o = std::process::Command::new(target.join("debug/listprobe")).args(&args).output().map_err(|e| Fail { sig: "harness:list-edit-probe-run".into(), msg: format!("{}", e) })?;
         if !o.status.success() {
@@ -455,7 +486,13 @@ fn main() {
     let after = after?;
     obs.evals_add(9);
     let what = format!("after appending {:04x}:{} (copy of {:04x}), renaming {:04x} to {} and deleting {:04x} in scripts/tls-ciphersuites.txt and building again", new_id, new_name, donor.id, renamed.id, ren_name, deleted.id);
-    ensure!(val(&after, "count") == n.to_string(), "C12:rebuild:count", "{}: the registry holds {} suites, the edited list has {}", what, val(&after, "count"), n);
+    ensure!(val(&after, "count") == (n + 2).to_string(), "C12:rebuild:count", "{} (plus two rows in other shapes): the registry holds {} suites, the edited list has {}", what, val(&after, "count"), n + 2);
+    for (id, name) in &extra {
+        let got = val(&after, &format!("id:{:04x}", id));
+        let want = donor_params.replacen(&donor.name, name, 1);
+        ensure!(got == want, "C12:rebuild:appended-row-shape", "{}: the row {:04x}:{} (ten columns only / URL in the reference column) gives {}, expected {}", what, id, name, got, want);
+        ensure!(val(&after, &format!("name:{}", name)) == format!("{:04x}", id), "C12:rebuild:appended-name", "{}: lookup of {} gives {}", what, name, val(&after, &format!("name:{}", name)));
+    }
     let got_new = val(&after, &format!("id:{:04x}", new_id));
     let want_new = donor_params.replacen(&donor.name, &new_name, 1);
     ensure!(got_new == want_new, "C12:rebuild:appended-row", "{}: lookup of the new id gives {}, expected {}", what, got_new, want_new);
